@@ -142,6 +142,23 @@ let () =
          let rp = function "with" -> Some true | "without" -> Some false | _ -> None in
          print_endline (match probe_after fl (if se = "closed" then SeClosedByUs else SeFailed) (rp config) (rp caps) with
              | PoErr -> "err" | PoInfo k -> if k then "info:1" else "info:0" | PoPanic -> "panic")
+       | ["text"; m; lo; hi] ->
+         (* status text (Client/StatusText.v): text <range|block> <lo> <hi> -> the codes in [lo,hi] for which the lookup panics,
+            as ranges a-b separated by commas (or -), then the number of codes that get a table text *)
+         let mode = if m = "block" then ByBlock else ByRange in
+         let lo = int_of_string lo and hi = int_of_string hi in
+         let buf = Buffer.create 64 and start = ref (-1) and table = ref 0 in
+         let flush e = if !start >= 0 then begin
+             if Buffer.length buf > 0 then Buffer.add_char buf ',';
+             Buffer.add_string buf (if !start = e then string_of_int e else Printf.sprintf "%d-%d" !start e); start := -1 end in
+         for c = lo to hi do
+           (match default_text mode (n_of_int c) with
+            | TPanic -> if !start < 0 then start := c
+            | TTable _ -> incr table; flush (c - 1)
+            | _ -> flush (c - 1))
+         done;
+         flush hi;
+         Printf.printf "panics=%s table=%d\n" (if Buffer.length buf = 0 then "-" else Buffer.contents buf) !table
        | [""] -> ()
        | _ -> print_endline "error: bad request")
     done
